@@ -821,6 +821,18 @@ def rule_const_fit(repo):
     return r
 
 
+def rule_width_tables(repo):
+    """slices, concat and the extension helpers build Bits of every width the constructor accepts: the mask / bound tables must
+    cover exactly that range (a table one entry short breaks width 1023 only).  Shared with C04 (R-C04-tables, R-C04-operand-kind)."""
+    from rules.c04 import rule_tables
+    return rule_tables(repo)
+
+
+def rule_operand_kinds(repo):
+    from rules.c04 import rule_operand_kind
+    return rule_operand_kind(repo)
+
+
 def rule_slice_nodes(repo):
     """sibling implementation of slicing: the per-signal memo of slice objects (`_dsl.slices`) and the nodes the structural
     passes register for them must be keyed by the absolute bit range, so that a nested slice never aliases the node of a
@@ -837,7 +849,7 @@ def rule_translated_slices(repo):
 
 
 RULES = [rule_bounds, rule_nonefalsy, rule_frame, rule_fit, rule_helpers, rule_intlog, rule_signal_slices, rule_rtlir_slices,
-         rule_slice_nodes, rule_translated_slices, rule_value_semantics, rule_rtlir_slice_step, rule_alias, rule_const_fit]
+         rule_slice_nodes, rule_translated_slices, rule_value_semantics, rule_rtlir_slice_step, rule_alias, rule_const_fit, rule_width_tables, rule_operand_kinds]
 
 
 def _m(name, old, new, rule=None, file=BITS, count=1):
